@@ -212,6 +212,7 @@ class Facts:
         self.errors = []        # (class, message)
         self.notes = []
         self._keys = {}
+        self.progress = []      # (class qualname, read returned None, cursor index after read, decisions)
         self.nested_calls = []  # hooked nested tokenize_block calls: (reader FuncInfo, args, kwargs, trace)
         self.paths = {}
 
@@ -517,6 +518,10 @@ def explore_block_class(model, cls, facts, nlines=2, max_paths=4000):
 
 
 def collect(model, cls, out, trace, facts):
+    if out.get('stage') in ('read-none', 'construct', 'done') and 'raised' not in out:
+        cur = out.get('cursor')
+        facts.progress.append((cls.qualname, out.get('read_result') is None, cur if isinstance(cur, int) else None,
+                               [(str(k)[:70], v) for k, v in (trace or [])][:12]))
     if 'raised' in out:
         facts.errors.append((cls, out['stage'], out['raised'], trace))
         return
@@ -625,7 +630,7 @@ def _run_task(i):
     for insts in f.instances.values():
         for inst in insts:
             inst.trace = None
-    return (f.instances, errs, f.notes, f.paths)
+    return (f.instances, errs, f.notes, f.paths, f.progress)
 
 
 def build_facts(model, configs, jobs=None):
@@ -670,7 +675,8 @@ def build_facts(model, configs, jobs=None):
             results = None
     if results is None:
         results = [_run_task(i) for i in range(len(tasks))]
-    for instances, errs, notes, paths in results:
+    for instances, errs, notes, paths, progress in results:
+        facts.progress.extend(progress)
         for cls, insts in instances.items():
             for inst in insts:
                 facts.add(cls, inst)
